@@ -333,7 +333,10 @@ def log2_ratio(E, a, b):
 
 # ----------------------------------------------------------------------------- Coq text
 def zarg(n):
-    return str(n) if n >= 0 else "(%d)" % n
+    """Z literal; hexadecimal above 64 bits (Coq parses long decimal numerals in quadratic time)"""
+    if -2**64 < n < 2**64:
+        return str(n) if n >= 0 else "(%d)" % n
+    return hex(n) if n >= 0 else "(-%s)" % hex(-n)
 
 def zlit(n):
     return "(zb %s)" % zarg(n)
@@ -519,18 +522,46 @@ def case_file(tag, c, j):
     return path
 
 
-def summarize(rep, tag, cases, stats, what_fn, level_note=""):
-    """Common tail of the property modules: turn verdicts into violations + counters."""
-    npass = nfail = ninc = 0
+def summarize(rep, tag, cases, what_fn):
+    """Common tail of the property modules: turn Coq verdicts into violations + counters.
+    Labels starting with 'cert:' are checks of the UNTRUSTED search (exact inverse / exact solution /
+    exact singularity); if one of them is not proved the whole case is inconclusive (never an alarm)."""
+    npass = nfail = ninc = ncert = 0
     for c in cases:
+        cert_ok = all(c.verdict[j] == "pass" for j, (l, _) in enumerate(c.checks) if l.startswith("cert:"))
         for j, (label, p) in enumerate(c.checks):
             v = c.verdict[j]
-            if v == "pass": npass += 1
+            if label.startswith("cert:"):
+                ncert += 1
+                if v != "pass":
+                    ninc += 1
+                continue
+            if not cert_ok:
+                ninc += 1
+                continue
+            if v == "pass":
+                npass += 1
             elif v == "fail":
                 nfail += 1
                 path = case_file(tag, c, j)
-                r = dict(c.meta); r.update({"kind": label, "coq_file": path, "cmd": " ".join(COQC) + " " + path})
+                r = dict(c.meta)
+                r.update({"kind": label, "coq_file": path, "cmd": " ".join(COQC) + " " + path,
+                          "coq_text": open(path).read() if os.path.getsize(path) < 200000 else "(see coq_file)"})
                 rep.violation(what_fn(c, label), r)
             else:
                 ninc += 1
-    return npass, nfail, ninc
+    return {"certified_pass": npass, "certified_fail": nfail, "inconclusive": ninc, "search_certificates": ncert}
+
+
+def replay_file(rep, d):
+    """re-decide a recorded certified violation from its .v text"""
+    os.makedirs(os.path.join(BUILD, "replay"), exist_ok=True)
+    path = os.path.join(BUILD, "replay", "replay_%s.v" % hashlib.sha1(d.get("coq_text", "").encode()).hexdigest()[:10])
+    txt = d.get("coq_text", "")
+    if txt.startswith("(see") and os.path.exists(d.get("coq_file", "")):
+        txt = open(d["coq_file"]).read()
+    with open(path, "w") as f:
+        f.write(txt)
+    ok, log = ensure_built()
+    rc, out, secs = _coqc(path, 600)
+    return rc == 0, " ".join(COQC) + " " + path, out[-500:]
